@@ -526,13 +526,13 @@ pub fn call_tok(index: usize, count: usize, global: bool, rng: &mut Rng) -> Opti
     if encs.is_empty() {
         return None;
     }
-    // the fixed form of a subroutine number is unusual; keep it rare
-    let enc = if encs.len() > 1 && rng.chance(9, 10) {
-        let e: Vec<NumEnc> = encs.iter().copied().filter(|e| *e != NumEnc::Five).collect();
-        *rng.pick(&e)
-    } else {
-        *rng.pick(&encs)
-    };
+    // a subroutine number is an integer: interpreters that keep the operand type refuse the 16.16
+    // form, so only the integer encodings belong to the unambiguous core
+    let e: Vec<NumEnc> = encs.iter().copied().filter(|e| *e != NumEnc::Five).collect();
+    if e.is_empty() {
+        return None;
+    }
+    let enc = *rng.pick(&e);
     let mut b = Vec::with_capacity(6);
     if !cs_int(&mut b, operand, enc) {
         return None;
